@@ -101,7 +101,7 @@ func (f GoField) GoValue() (reflect.Type, reflect.Value) {
 	case "bool":
 		return mk(f.V.B)
 	case "time":
-		return mk(time.Unix(f.V.I, 0))
+		return mk(TimeOf(f.V.I))
 	case "[]string":
 		out := make([]string, len(f.V.A))
 		for i, e := range f.V.A {
@@ -149,7 +149,7 @@ func (f GoField) GoValue() (reflect.Type, reflect.Value) {
 	case "[]time":
 		out := make([]time.Time, len(f.V.A))
 		for i, e := range ints() {
-			out[i] = time.Unix(e, 0)
+			out[i] = TimeOf(e)
 		}
 		return mk(out)
 	case "[]interface":
@@ -273,4 +273,37 @@ func (o *GoObjSpec) Build() (obj interface{}, err error) {
 		return pv.Interface(), nil
 	}
 	return pv.Elem().Interface(), nil
+}
+
+// TimeOf builds the instant a host hands over for the Unix second sec. The
+// property fixes only the second; the part below a second and the zone the
+// value carries are the host's business, so they vary (as a pure function of
+// sec, which keeps replays exact): none, one nanosecond, the last nanosecond
+// of the second or any other, in UTC, the local zone or a fixed offset.
+func TimeOf(sec int64) time.Time {
+	h := uint64(sec) * 0x9E3779B97F4A7C15
+	var nsec int64
+	switch h >> 61 {
+	case 0, 1:
+		nsec = 0
+	case 2:
+		nsec = 1
+	case 3:
+		nsec = 999999999
+	default:
+		nsec = int64((h >> 8) % 1000000000)
+	}
+	t := time.Unix(sec, nsec)
+	switch (h >> 56) & 7 {
+	case 0, 1:
+		t = t.UTC()
+	case 2:
+		t = t.In(time.FixedZone("east", 5*3600+1800))
+	case 3:
+		t = t.In(time.FixedZone("west", -11*3600))
+	}
+	if t.Unix() != sec {
+		return time.Unix(sec, 0) // beyond what the host's type can carry with a fraction
+	}
+	return t
 }
